@@ -9,5 +9,6 @@ CONSTANTS
   Secrets <- S1
   Questions <- Q0
   AllowEnd = TRUE
+  MaxRequery = 0
 INVARIANTS TypeOK QuietMeansEncrypted InOrderNoDup AllDelivered SlotsSuffice SlotBound NoSplice
 CHECK_DEADLOCK FALSE
